@@ -51,17 +51,17 @@ func callIdents(src []byte) ([]*ast.Ident, *token.FileSet, error) {
 // expectedRewrite: the original with the call identifiers replaced by the
 // names found at the same ordinal positions in the rewritten file, gofmt'ed.
 // renamed reports whether any identifier changed.
-func expectedRewrite(orig, after []byte) (want []byte, renamed bool, problem string) {
+func expectedRewrite(orig, after []byte) (want []byte, renamed bool, nchanged int, problem string) {
 	oi, ofs, err := callIdents(orig)
 	if err != nil {
-		return nil, false, "" // the original does not parse: nothing to demand
+		return nil, false, 0, "" // the original does not parse: nothing to demand
 	}
 	ai, _, err := callIdents(after)
 	if err != nil {
-		return nil, true, "the file no longer parses after the run: " + err.Error()
+		return nil, true, 0, "the file no longer parses after the run: " + err.Error()
 	}
 	if len(oi) != len(ai) {
-		return nil, true, fmt.Sprintf("the file has %d call expressions after the run, %d before", len(ai), len(oi))
+		return nil, true, 0, fmt.Sprintf("the file has %d call expressions after the run, %d before", len(ai), len(oi))
 	}
 	out := append([]byte(nil), orig...)
 	// substitute from the end so that offsets stay valid
@@ -70,17 +70,18 @@ func expectedRewrite(orig, after []byte) (want []byte, renamed bool, problem str
 			continue
 		}
 		renamed = true
+		nchanged++
 		off := ofs.Position(oi[i].Pos()).Offset
 		out = append(out[:off:off], append([]byte(ai[i].Name), out[off+len(oi[i].Name):]...)...)
 	}
 	if !renamed {
-		return orig, false, ""
+		return orig, false, 0, ""
 	}
 	f, err := format.Source(out)
 	if err != nil {
-		return nil, true, "substituted original does not format: " + err.Error()
+		return nil, true, nchanged, "substituted original does not format: " + err.Error()
 	}
-	return f, true, ""
+	return f, true, nchanged, ""
 }
 
 func c10Case(ctx *genCtx, ts *tape.Set, dir string) *genResult {
@@ -115,6 +116,13 @@ func c10Case(ctx *genCtx, ts *tape.Set, dir string) *genResult {
 			flags = []string{"-dedup"}
 		default:
 			flags = []string{"-autoname", "-dedup"}
+		}
+		if mt.Bool() {
+			// the clash is added to a package that has been generated before
+			writeWorld(dir, w.Render())
+			pr := runGoderive(ctx.bins.inst, dir, []string{"./p"}, &Plan{MapMode: "identity"}, 0)
+			res.count(pr)
+			res.probe("flags.prior_derived_file")
 		}
 		did = world.MakeCollisions(w, ts.Fork("collide"), mt.Intn(3) > 0, mt.Intn(3) > 0)
 		outcome = "flags"
@@ -220,7 +228,7 @@ func c10Case(ctx *genCtx, ts *tape.Set, dir string) *genResult {
 		return res
 	}
 	// with flags: user files
-	rewritten := 0
+	rewritten, changedIdents := 0, 0
 	d := diffSnap(before, after, func(p string) bool { return isDerivedOfProcessed(p) || (strings.HasSuffix(p, ".go") && strings.HasPrefix(p, "p/")) })
 	if len(d) > 0 {
 		res.V = &genViolation{Clause: "foreign-file-touched", Detail: fmt.Sprintf("flags %v (exit %d): %s", flags, r.Exit, strings.Join(d, "; ")), Facts: facts}
@@ -235,7 +243,8 @@ func c10Case(ctx *genCtx, ts *tape.Set, dir string) *genResult {
 			res.V = &genViolation{Clause: "user-file-deleted", Detail: path + " no longer exists", Facts: facts}
 			return res
 		}
-		want, renamed, problem := expectedRewrite(orig[path], now)
+		want, renamed, nchanged, problem := expectedRewrite(orig[path], now)
+		changedIdents += nchanged
 		if problem != "" {
 			facts["file"] = path
 			res.V = &genViolation{Clause: "rewrite-malformed", Detail: fmt.Sprintf("%s after flags %v: %s", path, flags, problem), Facts: facts}
@@ -263,6 +272,12 @@ func c10Case(ctx *genCtx, ts *tape.Set, dir string) *genResult {
 			res.V = &genViolation{Clause: kind, Detail: fmt.Sprintf("%s under flags %v is not gofmt(original with the renamed identifiers substituted): %s", path, flags, firstDiff(string(want), string(now))), Facts: facts}
 			return res
 		}
+	}
+	reported := strings.Count(r.Stderr, "changing function call name from ")
+	// a run that fails later may have announced renames it never wrote; it must never write more than it announced
+	if res.V == nil && (changedIdents > reported || (r.Exit == 0 && changedIdents != reported)) {
+		res.V = &genViolation{Clause: "renamed-more-than-reported", Detail: fmt.Sprintf("flags %v: %d call identifiers changed in the user files, goderive reported %d renames: %s", flags, changedIdents, reported, firstLines(r.Stderr, 4)), Facts: facts}
+		return res
 	}
 	if rewritten > 0 {
 		res.probe("rewrite.files_rewritten")
